@@ -193,6 +193,12 @@ def run(ctx):
         for (ty, l, r) in [("int", "a.i", "b.i"), ("int", "a.i", "3"), ("int", "a.i", "3000000000"), ("int", "2", "a.i"), ("uint", "a.u", "3"), ("uint", "a.u", "4294967296"),
                            ("double", "a.d", "2.5"), ("double", "a.d", "b.d"), ("string", "a.s", "b.s")]:
             items.append(("binding", prog.PROP_OF[ty], "%s(%s, %s)" % (f, l, r), ty))
+    # variants of a scoped enum (enum class) and of plain enums / flags in run-time code: each must be spelled so that C++ finds it
+    for src, pn, t in [("a.b ? VObj.Level.High : VObj.Level.Low", "lv", "level"), ("a.lv == VObj.Level.High ? VObj.Level.Low : a.lv", "lv", "level"),
+                       ("a.lv != VObj.Level.Low", "b", "bool"), ("a.b ? VObj.ModeB : VObj.ModeC", "e", "mode"), ("a.e == VObj.ModeD", "b", "bool"),
+                       ("a.b ? VObj.OptA | VObj.OptC : a.f", "f", "opts")]:
+        items.append(("binding", pn, src, t))
+    items.append(("handler", "onFired", "{ a.lv = a.b ? VObj.Level.High : VObj.Level.Low; if (a.lv == VObj.Level.High) { a.e = VObj.ModeA; } }", None))
     # a gadget passed to a handler: read, written through (its setters are not const), re-assigned as a whole
     for body in ["{ g.x = a.i; g.t = a.s; a.g = g; }", "{ a.i = g.x; console.log(g.t); }", "{ g = a.g; a.i = g.x; }", "{ g.x = g.x + 1; a.i = g.x; }",
                  "{ if (a.b) { g.t = \"s\"; } a.s = g.t; }", "{ let h = g; h.x = 3; a.g = h; a.i = g.x; }"]:
@@ -257,7 +263,10 @@ def run(ctx):
         docs.append((cxx.document([("tgt", member, it[2])]), [("binding", member, it[2], it[3])], [("root", "VObj")] + cxx.OBJECT_DECLS))
         ctx.dist("gadget-member-binding")
     for member, src in (("font.pointSize", "Math.max(a.i, 1)"), ("font.pointSize", "Math.min(a.i, b.i)"), ("font.family", '{ console.log("x"); return a.s }'),
-                        ("font.pointSize", "{ console.warn(a.i); return a.i }")):
+                        ("font.pointSize", "{ console.warn(a.i); return a.i }"),
+                        # a path that falls off the end / breaks out without a value, a value of the wrong type: rejected -- if accepted, `return;` in a value function
+                        ("font.bold", "{ if (a.b) return true; }"), ("font.pointSize", "{ switch (a.i) { case 0: break; default: return a.i; } }"),
+                        ("font.family", "{ if (a.b) { return a.s } }"), ("font.bold", "a.s"), ("font.pointSize", "{ if (a.b) { return a.i } else { return a.s } }")):
         docs.append((cxx.document([("tgt", member, src)]), [("binding", member, src, None)], [("root", "VObj")] + cxx.OBJECT_DECLS))
     res2 = qml.run_docs(vh, [d for d, _, _ in docs])
     work = os.path.join(C.BUILD, "c16")
